@@ -21,6 +21,9 @@ use families::Tier;
 use scenario::*;
 use serde_json::{json, Value};
 
+// Under Miri the interpreter itself checks every access; the poisoning allocator (which reads its
+// red zones through pointers whose provenance Miri narrows) is left out there.
+#[cfg(not(miri))]
 #[global_allocator]
 static GLOBAL: alloc::PoisonAlloc = alloc::PoisonAlloc;
 
@@ -585,7 +588,7 @@ fn expected_probes(prop: &str) -> Vec<&'static str> {
     match prop {
         "C01" => vec!["row_reuse_hit", "multibyte_token_committed", "canonical_narrowing", "clone_shallow", "clone_deep", "fuel_exhausted_mid_operation", "cache_loss", "eos_committed"],
         "C02" => vec!["multibyte_token_committed", "token_not_utf8_aligned", "natural_stop_checked"],
-        "C03" => vec!["dead_end_search_alive", "guided_completion_ok"],
+        "C03" => vec!["dead_end_search_complete_to_depth", "dead_end_search_budget_exhausted", "guided_completion_ok"],
         "C10" => vec!["slice_applied", "multibyte_token_committed"],
         "C11" => vec!["row_reuse_hit", "cache_loss", "rollback_to_empty", "forced_bytes_nonempty"],
         "C12" => vec!["rollback_to_empty", "rollback_over_eos", "rollback_after_stop", "snapshot_compared"],
